@@ -218,6 +218,14 @@ func runC17(a vh.Args, o *vh.Oracle, r *vh.Result) error {
 			}
 			return nil
 		}
+		var lk struct {
+			Kind string `json:"kind"`
+			Seed uint64 `json:"seed"`
+		}
+		if err := readJSON(a.Replay, &lk); err == nil && lk.Kind == "large" {
+			// the large-batch family is regenerated from the recorded seed (the files are too big to store)
+			return c17LargeReplay(a, r, lk.Seed)
+		}
 		var tc c17TraceCase
 		if err := readJSON(a.Replay, &tc); err == nil && tc.Kind == "pooltrace" {
 			for i := 0; i < 30; i++ {
@@ -431,6 +439,9 @@ func runC17(a vh.Args, o *vh.Oracle, r *vh.Result) error {
 		return err
 	}
 	if err := c17Resource(a, r, rng); err != nil {
+		return err
+	}
+	if err := c17Large(a, r, rng); err != nil {
 		return err
 	}
 	return c17CLI(a, r, rng)
